@@ -46,7 +46,7 @@ def configs(n):
                 for t in ((0.5, 0.9, 1.0) if cost == 'r2' else (0.01, 0.5)):
                     out.append(('grdp', {'t': t, 'distance': dist, 'cost': cost, 'order': order}))
                 t = 0.9 if cost == 'r2' else 0.5
-                for mp in sorted(set([0, 3, n - 1, n, n + 1])):
+                for mp in sorted(set([0, 3, n - 1, n + 1])):
                     out.append(('mp_grdp', {'t': t, 'min_points': mp, 'distance': dist, 'cost': cost, 'order': order}))
     for ts in ([0.01, 0.001, 0.0001], [0.01, 0.5], [0.5, 0.01], [0.1]):
         for mp in sorted(set([0, 3, n, n + 1])):
@@ -66,8 +66,8 @@ def cfgs(n):
 def units(tier, seed):
     u = []
     if tier == 'quick':
-        plan = [('A', 2, 1), ('A', 3, 4), ('A', 4, 96), ('B', 3, 1), ('B', 4, 16), ('C', 3, 1), ('C', 4, 16), ('A1', 5, 16)]
         scale_n = (2, 3)
+        plan = [('A', 2, 1), ('A', 3, 4), ('A', 4, 96), ('B', 3, 1), ('B', 4, 16), ('C', 3, 1), ('C', 4, 16), ('A1', 5, 16)]
     else:
         plan = [('A', 2, 1), ('A', 3, 4), ('A', 4, 48), ('A', 5, 640), ('B', 3, 1), ('B', 4, 8), ('B', 5, 64),
                 ('C', 3, 1), ('C', 4, 8), ('C', 5, 64), ('A1', 6, 64)]
